@@ -250,6 +250,39 @@ func c02JarFacts(l *lean) {
 		}
 		return r
 	}
+	// policy/local.go: where the scope -> definitions mapping comes from
+	_, pol := parseFile("policy/local.go")
+	_, polCfg := parseFile("policy/config.go")
+	for _, fc := range []struct {
+		name string
+		fn   string
+	}{
+		{"condsPolicyConfigure", "Configure"},
+		{"condsPolicyLoadDir", "loadFromDirectory"},
+		{"condsPolicyLoadFile", "loadFromFile"},
+	} {
+		c := c02Conds(pol, fc.fn)
+		l.def(fc.name, "List String", leanStrList(c), c)
+	}
+	l.chain("chainPolicyConfigure", pol, "Configure")
+	l.chain("chainPolicyLoadDir", pol, "loadFromDirectory")
+	l.chain("chainPolicyLoadFile", pol, "loadFromFile")
+	// the suffix literal of the HasSuffix call in loadFromDirectory and the default directory
+	suffix := []string{}
+	if fd := funcDecl(pol, "loadFromDirectory"); fd != nil {
+		ast.Inspect(fd, func(n ast.Node) bool {
+			if c, ok := n.(*ast.CallExpr); ok && callName(c) == "HasSuffix" && len(c.Args) == 2 {
+				suffix = append(suffix, exprFull(c.Args[0]), exprFull(c.Args[1]))
+			}
+			return true
+		})
+	}
+	l.def("policySuffixCheck", "List String", leanStrList(suffix), suffix)
+	dflt := []string{}
+	if fd := funcDecl(polCfg, "defaultConfig"); fd != nil {
+		dflt = compositeFields(fd, "Config")
+	}
+	l.def("policyDefaultConfig", "List String", leanStrList(dflt), dflt)
 	a1 := args(jarF, "Parse", "validate")
 	l.def("jarValidateArgs", "List String", leanStrList(a1), a1)
 	a2 := args(api, "handleAuthorizeRequest", "handleAuthorizeRequestFromHolder")
